@@ -355,9 +355,10 @@ def jobs(tier):
                           budget=250 if q else 1500, exhaust=q,
                           bounds='document %d as %s stream: every read() index x %d exception kinds%s' % (
                               di, ['text', 'UTF-8', 'UTF-16'][form], NKINDS, ' (7-unit reads, safe_load_all)' if q else ' x 2 read sizes x 5 API functions')))
-    js.append(Job('read/first-reads', read_fault,
-                  [lambda di, form, big, k, kind, api: 0 <= di <= 2 and 0 <= form <= 2 and not big and 0 <= k <= 3 and 0 <= kind < NKINDS and 0 <= api <= 5],
-                  budget=250, bounds='1-unit reads: the first four read() calls (encoding detection, first refills) x 3 documents x 3 forms x 5 API functions x %d exception kinds' % NKINDS))
+    for a in range(6):
+        js.append(Job('read/first-reads/api%d' % a, read_fault,
+                      [lambda di, form, big, k, kind, api, _a=a: 0 <= di <= 2 and 0 <= form <= 2 and not big and 0 <= k <= 3 and 0 <= kind < NKINDS and api == _a],
+                      budget=250, bounds='1-unit reads: the first four read() calls (encoding detection, first refills) x 3 documents x 3 forms x %d exception kinds, API function %d of 6' % (NKINDS, a)))
     for vi in range(len(VALUES)):
         js.append(Job('write/value%d' % vi, write_fault,
                       [lambda vi, k, on_flush, kind, api, many, _v=vi: vi == _v and 0 <= k <= 140 and 0 <= kind < NKINDS and ((api == 0 or api == 3) if q else 0 <= api <= 3) and
